@@ -200,14 +200,17 @@ def run(tier, seed, replay_file=None):
             hists += [(target, c) for c in r.cases]
         o.exhaustive = True
         if tier == "thorough":
-            for target, cfg, n in (("module", "mc/MC_Namespace_mod6.cfg", 60000), ("bundle", "mc/MC_Namespace_bun6.cfg", 20000)):
-                r = tlc.run("mc/MC_Namespace.tla", cfg, workers=1, simulate=f"num={n}", depth=7, seed=seed + 1, tag="c18sim")
+            srnd = random.Random(seed + 7)
+            # (a simulated behaviour prints every candidate last step, ~50 histories per behaviour: a seeded sample of `n` of them is replayed)
+            for target, cfg, nb, n in (("module", "mc/MC_Namespace_mod6.cfg", 4000, 60000), ("bundle", "mc/MC_Namespace_bun6.cfg", 1500, 20000)):
+                r = tlc.run("mc/MC_Namespace.tla", cfg, workers=1, simulate=f"num={nb}", depth=7, seed=seed + 1, tag="c18sim")
                 if r.rc not in (0,):
                     raise tlc.TlcError(f"simulate failed rc={r.rc}: {r.out[-2000:]}")
                 o.mc_runs.append({"spec": "MC_Namespace(simulate)", "constants": cfg, "behaviours": len(r.cases)})
                 o.transitions += r.generated
-                uniq = {json.dumps(c, sort_keys=True): c for c in r.cases}
-                hists += [(target, c) for c in uniq.values()]
+                picked = r.cases if len(r.cases) <= n else srnd.sample(r.cases, n)
+                hists += [(target, c) for c in picked]
+                del r
     # RUN + VAL, in chunks (the projected traces of 200k histories do not fit in memory at once)
     cd = []
     seen = set()
